@@ -206,6 +206,8 @@ def per_word(p, prog_words, cache_dir=None):
             back[a] = r
     res = {"front": front, "back": back}
     if cache_dir:
+        from .facts import code_unchanged
+    if cache_dir and code_unchanged():
         tmp = f + ".tmp%d" % os.getpid()
         with open(tmp, "wb") as fh:
             pickle.dump(res, fh)
